@@ -9,6 +9,9 @@ const KEYWORDS: &[&str] = &[
     "typeof", "union", "unsafe", "unsized", "use", "virtual", "where", "while", "yield",
 ];
 
+/// Keywords that cannot be used as raw identifiers (`r#self` etc. are rejected by the compiler)
+const NON_RAW_KEYWORDS: &[&str] = &["crate", "self", "Self", "super"];
+
 /// Struct used as namespace only
 pub struct NamingHelper;
 
@@ -35,14 +38,18 @@ impl NamingHelper {
         name.starts_with("r#")
     }
 
-    /// If the given name is a reserved Rust keyword it is converted into a raw identifier
+    /// If the given name is a reserved Rust keyword it is converted into a raw identifier.
+    /// The keywords that can't be raw identifiers get an underscore appended instead.
     /// ```
     /// use parol::generators::NamingHelper as NmHlp;
     /// assert_eq!("Type".to_string(), NmHlp::escape_rust_keyword("Type".to_string()));
     /// assert_eq!("r#type".to_string(), NmHlp::escape_rust_keyword("type".to_string()));
+    /// assert_eq!("self_".to_string(), NmHlp::escape_rust_keyword("self".to_string()));
     /// ```
     pub fn escape_rust_keyword(name: String) -> String {
-        if Self::is_rust_keyword(&name) {
+        if NON_RAW_KEYWORDS.contains(&name.as_str()) {
+            format!("{name}_")
+        } else if Self::is_rust_keyword(&name) {
             format!("r#{name}")
         } else {
             name
@@ -88,6 +95,7 @@ impl NamingHelper {
     /// assert_eq!("nor_op_23", NmHlp::to_lower_snake_case("nor_op_23"));
     /// assert_eq!("r#type", NmHlp::to_lower_snake_case("type"));
     /// assert_eq!("r#type", NmHlp::to_lower_snake_case("r#type"));
+    /// assert_eq!("self_", NmHlp::to_lower_snake_case("Self"));
     /// assert_eq!("_0", NmHlp::to_lower_snake_case("0"));
     /// assert_eq!("_123_a_b_c", NmHlp::to_lower_snake_case("123ABC"));
     /// ```
@@ -139,6 +147,7 @@ impl NamingHelper {
     /// assert_eq!("PrologItem", NmHlp::to_upper_camel_case("PrologItem"));
     /// assert_eq!("AA", NmHlp::to_upper_camel_case("_a_a_"));
     /// assert_eq!("If", NmHlp::to_upper_camel_case("r#if"));
+    /// assert_eq!("Self_", NmHlp::to_upper_camel_case("self"));
     /// assert_eq!("_0", NmHlp::to_upper_camel_case("0"));
     /// assert_eq!("_0", NmHlp::to_upper_camel_case("_0"));
     /// ```
@@ -166,18 +175,13 @@ impl NamingHelper {
                     }
                     acc
                 });
-        if result.starts_with(|c: char| c.is_ascii_digit()) {
+        let result = if result.starts_with(|c: char| c.is_ascii_digit()) {
             format!("_{result}")
         } else {
             result
-        }
-        // Currently rust identifiers only start with a lowercase letter, thus we do not need to
-        // check for rust keywords
-        // if Self::is_rust_keyword(&result) {
-        //     format!("r#{}", result)
-        // } else {
-        //     result
-        // }
+        };
+        // `Self` is the only rust keyword that starts with an uppercase letter
+        Self::escape_rust_keyword(result)
     }
 
     /// This is a very restrictive definition of allowed characters in identifiers `parol` allows.
